@@ -159,6 +159,12 @@ def abtest(ctx) -> None:
     init = prog.func(f'{ci.ref}.__init__')
     text = core.src(init.node)
     ctx.check('combined = sum(targets)' in text and 't / combined' in text and 'zip(variants, targets)' in text, 'C17.abtest', init, 'targets are normalised by their combined weight, paired with their variants in order', init.node, key='init:normalise')
+    # the shares are the exact quotients: nothing rounds, truncates or quantises a target (three equal shares rounded to
+    # 0.3333 sum to 0.9999 - request 10000 finds no eligible slot; 1:2:4 rounded drifts more than a request off its share)
+    lossy = [c for c in core.walk_local(init.node) if isinstance(c, ast.Call) and (core.call_name(c) or '').split('.')[-1] in ('round', 'int', 'floor', 'ceil', 'trunc', 'quantize', 'Decimal', 'format')]
+    slots = [c for c in core.walk_local(init.node) if isinstance(c, ast.Call) and core.src(c.func) == 'self.Slot']
+    exact = all(len(c.args) == 2 and isinstance(c.args[1], ast.BinOp) and isinstance(c.args[1].op, ast.Div) for c in slots)
+    ctx.check(not lossy and bool(slots) and exact, 'C17.abtest', init, f'every slot gets the exact quotient target / combined (lossy conversions: {[core.src(c)[:30] for c in lossy]})', lossy[0] if lossy else init.node, key='init:exact-share')
     srt = next((c for c in core.calls_in(init.node) if core.call_name(c) == 'sorted'), None)
     oks = srt is not None and any(k.arg == 'reverse' and core.is_const(k.value, True) for k in srt.keywords) and any(k.arg == 'key' and core.src(k.value).replace(' ', '') == 'lambdas:s.target' for k in srt.keywords)
     ctx.check(oks, 'C17.abtest', init, 'slots are probed from the largest target share down (sorted by target, descending): the dominant variant is never starved by smaller ones', srt or init.node, key='init:slot-order')
